@@ -596,3 +596,46 @@ func (r *Ref) SweepOrder() []Call {
 	l := append(hits, misses...)
 	return append(l, Call{"Brokers", "", 0}, Call{"Topics", "", 0})
 }
+
+// OpenPoints names the open points (see the header) an observation touched, for the evidence.
+func (r *Ref) OpenPoints(o *Obs) []string {
+	var l []string
+	t := r.Topics[o.Topic]
+	switch o.Op {
+	case "WritablePartitions":
+		if t == nil {
+			return nil
+		}
+		got := map[int32]bool{}
+		for _, id := range o.Ints {
+			got[id] = true
+		}
+		for id, p := range t.Parts {
+			if r.leaderClass(p) == "open" {
+				if got[id] {
+					l = append(l, "open:WritablePartitions-lists-partition-whose-leader-id-is-in-no-broker-list")
+				} else {
+					l = append(l, "open:WritablePartitions-omits-partition-whose-leader-id-is-in-no-broker-list")
+				}
+			}
+		}
+	case "Partitions", "Leader", "Replicas", "InSyncReplicas", "OfflineReplicas":
+		if t != nil && t.Lenient {
+			if unknownOK(o) {
+				l = append(l, "open:topic-level-LEADER_NOT_AVAILABLE-answered-as-unknown")
+			} else {
+				l = append(l, "open:topic-level-LEADER_NOT_AVAILABLE-answered-from-partial-results")
+			}
+		}
+	case "Brokers":
+		for _, b := range o.Brks {
+			if _, ok := r.Must[b.ID]; !ok {
+				l = append(l, "open:broker-not-listed-by-per-topic-response-kept")
+			}
+		}
+		if len(r.May) > 0 && len(o.Brks) == len(r.Must) {
+			l = append(l, "open:broker-not-listed-by-per-topic-response-dropped")
+		}
+	}
+	return l
+}
